@@ -130,7 +130,8 @@ def gen_case(rng, tier, index):
     entries = [e for e, _ in ENTRY_WEIGHTS]
     entry = rng.choices(entries, weights=[w for _, w in ENTRY_WEIGHTS])[0]
     mx = rng.choice([950, 950, 200, 1000, 333.3, 50])
-    wl = {"max_volume": mx, "diti_mode": rng.random() < 0.3, "auto_split": True}
+    wl = {"max_volume": mx, "diti_mode": rng.random() < 0.3, "auto_split": True,
+          "cls": rng.choice(["base", "base", "base", "evo", "fluent", "deprecated", "deprecated_positional"])}
     case = {"entry": entry, "wl": wl, "faults": []}
     p_fault = 0.45
     if entry in ("aspirate_well", "dispense_well"):
@@ -182,6 +183,9 @@ def gen_case(rng, tier, index):
             k = rng.randint(0, min(6, d1 - d0 + 1))
             ex = rng.sample(range(d0, d1 + 1), k)
             kw["exclude_wells"] = rng.choice([list, tuple, set])(ex) if ex or rng.random() < 0.5 else None
+            if ex and rng.random() < 0.2:
+                # any Iterable[int] is documented: a one-shot iterator / generator as well
+                kw["exclude_wells"] = {rng.choice(["__iter__", "__gen__"]): list(ex)}
         if rng.random() < 0.5:
             kw["liquid_class"] = text(rng, 0, 40)
         if rng.random() < 0.5:
@@ -332,7 +336,18 @@ def run_case(ctx, case):
     nontrivial = must_raise
     if entry == "passthrough":
         return _run_passthrough(ctx, case)
-    wl = robotools.BaseWorklist(max_volume=wlc["max_volume"], diti_mode=wlc["diti_mode"])
+    kind = wlc.get("cls", "base")
+    ctx.feature("worklist_class", kind)
+    if kind == "evo":
+        wl = robotools.EvoWorklist(max_volume=wlc["max_volume"], diti_mode=wlc["diti_mode"])
+    elif kind == "fluent":
+        wl = robotools.FluentWorklist(max_volume=wlc["max_volume"], diti_mode=wlc["diti_mode"])
+    elif kind == "deprecated":
+        wl = robotools.Worklist(max_volume=wlc["max_volume"], diti_mode=wlc["diti_mode"])
+    elif kind == "deprecated_positional":
+        wl = robotools.Worklist(None, wlc["max_volume"], True, wlc["diti_mode"])
+    else:
+        wl = robotools.BaseWorklist(max_volume=wlc["max_volume"], diti_mode=wlc["diti_mode"])
     if entry == "set_diti":
         _prefix(wl, case["prefix"])
         ctx.feature("set_diti_prefix", case["prefix"])
@@ -340,6 +355,12 @@ def run_case(ctx, case):
     before = list(wl)
     a = dec(case.get("args", {})) or {}
     kw = dec(case.get("kw", {})) or {}
+    ex_given = kw.get("exclude_wells")
+    if isinstance(ex_given, dict) and ("__iter__" in ex_given or "__gen__" in ex_given):
+        items = list(ex_given.get("__iter__") or ex_given.get("__gen__"))
+        kw = dict(kw, exclude_wells=iter(items) if "__iter__" in ex_given else (x for x in items))
+        ex_given = items
+        ctx.count("exclusions_given_as_one_shot_iterator")
     exc = None
     try:
         if entry in ("aspirate_well", "dispense_well"):
@@ -422,7 +443,7 @@ def run_case(ctx, case):
                 ctx.count("multi_dispense_reduced")
             else:
                 want_md = md
-            ex = kw.get("exclude_wells")
+            ex = ex_given
             ok = (
                 f["src_label"] == a["src_rack_label"] and f["dst_label"] == a["dst_rack_label"]
                 and (f["src_start"], f["src_end"], f["dst_start"], f["dst_end"]) == (a["src_start"], a["src_end"], a["dst_start"], a["dst_end"])
